@@ -54,6 +54,7 @@ import Restful.Lemmas.Mime
 import Restful.Lemmas.MimeOWS
 import Restful.Lemmas.MimeClass
 import Restful.Lemmas.StateShape
+import Restful.Lemmas.Translated
 namespace Restful
 namespace Props
 open Str Mime
@@ -347,6 +348,10 @@ example :
 -- also: Restful.StateShape.consts_shape
 -- also: Restful.StateShape.response_shape
 -- also: Restful.StateShape.entity_shape
+
+/-! The regenerated tie (tools/gotrans → Gen/Translated.lean, Lemmas/Translated.lean): the decision
+    functions this property's model contains ARE the ones translated from the Go sources on this run. -/
+-- also: Restful.Tie.sort_call_sites
 
 end Props
 end Restful
